@@ -363,8 +363,10 @@ def run(chk, replay=None):
                 if nm in scrambled: continue
                 if a != b and diff is None: diff = f"{nm}: linear {[[float(v) for v in row] for row in a]} vs zoh {[[float(v) for v in row] for row in b]}"
             if diff:
-                dup = s + w == n and n >= 2 and maskd[n - 1] == maskd[n - 2]
-                chk.violation("knot-eq-zoh:" + ("duplicate-last-knot(dummy-and-message-both-arrive-at-step-start)" if dup else sig),
+                # a dummy entry and a real message share their (delayed) arrival time: jnp.interp then returns, for every query
+                # at that time, the last of the equal knots (or, at the final knot, the one before it)
+                dup = any(e[0] >= 0 and f[0] < 0 and a == b for e, a in zip(x["ents"], maskd) for f, b in zip(x["ents"], maskd))
+                chk.violation("knot-eq-zoh:" + ("duplicate-knot(dummy-and-message-arrive-together)" if dup else sig),
                               "delayed arrival coincides with a message but the interpolated window is not the zero-order-hold window: " + diff, case)
                 continue
         # derivative w.r.t. alpha against the model's exact difference quotient (only where the model is locally affine)
